@@ -28,6 +28,7 @@ EXPAND = ['ExpandJson', 'ExpandToml', 'SplitBack']
 ASSIGN = [f + b for b in ('Json', 'Toml') for f in ('AssignScalar', 'AssignObject', 'AssignArray', 'AssignValue', 'Assign')] + ['SplitFront', 'IsRoot', 'ForLenIncl']
 LABELS = [n + 'Err' + a for n in ('Resolve', 'Assign') for a in ('Position', 'Offset', 'Labels')]
 PARSEERR = ['ParseErrOffset', 'ParseErrPointerOffset', 'ParseErrSourceOffset', 'ParseErrCompleteOffset', 'ParseErrInvalidEncodingLen', 'ParseErrLabels']
+CMP = [sp['id'] for sp in rs2lean.FUNCS if sp.get('cmpimpl')]
 BUILD = ['GetUsize', 'First', 'Last', 'WithTrailingToken', 'WithLeadingToken', 'Concat']
 BUF = ['FromTokens', 'PushFront', 'PushBack', 'PopBack', 'Append', 'Clear', 'PopFront', 'Replace']
 def _u(*ls):
@@ -44,12 +45,13 @@ PROP_FUNCS = {
     'C05': _u(WALKS, ['IndexFromStr', 'ForLen'], TOIDX), 'C09': _u(WALKS, DELETE, EXPAND, ASSIGN, ['IndexFromStr', 'ForLen'], TOIDX), 'C15': _u(WALKS, ASSIGN, LABELS, ['IndexFromStr', 'ForLen'], TOIDX),
     'C08': _u(WALKS, DELETE, ['IndexFromStr', 'ForLen'], TOIDX), 'C10': _u(WALKS, DELETE, EXPAND, ASSIGN, ['IndexFromStr', 'ForLen'], TOIDX),
     'C06': _u(EXPAND, ASSIGN, ['IndexFromStr', 'ForLenIncl'], TOIDX), 'C07': _u(EXPAND, ASSIGN, ['IndexFromStr', 'ForLenIncl'], TOIDX),
+    'C17': CMP,
     'C03': TOKEN, 'C04': _u(ACCESS, ['FromTokens'], BUILD, ['PushBack', 'PushFront', 'Append']), 'C12': _u(SLICE, SPLITS, ['GetUsize']), 'C13': _u(RELS, ['Append', 'Concat']), 'C16': INDEX,
     'C19': _u(TOKEN, SLICE, SPLITS, RELS, ACCESS),
 }
 TRANSPORT_MEMBERS = {'TransportValidate': ['ValidateBytes'], 'TransportToken': TOKEN, 'TransportSlice': SLICE, 'TransportIndex': INDEX,
                      'TransportPointer': POINTER, 'TransportResolve': WALKS, 'TransportBuf': BUF, 'TransportDelete': ['DeleteJson', 'DeleteToml'], 'TransportExpand': ['ExpandJson', 'ExpandToml'],
-                     'TransportAssign': [x for x in ASSIGN if x.startswith('Assign')], 'TransportBuild': BUILD, 'TransportLabels': LABELS, 'TransportParseErr': PARSEERR}
+                     'TransportAssign': [x for x in ASSIGN if x.startswith('Assign')], 'TransportBuild': BUILD, 'TransportCmp': CMP, 'TransportLabels': LABELS, 'TransportParseErr': PARSEERR}
 TIE_THEOREMS = {
     'ValidateBytes': ['Jp.Tie.validate_bytes_eq', 'Jp.Tie.validate_bytes_nil'], 'FromEncoded': ['Jp.Tie.from_encoded_eq'],
     'TokenNew': ['Jp.Tie.new_eq'], 'Decoded': ['Jp.Tie.decoded_eq'], 'ForLen': ['Jp.Tie.for_len_eq'],
@@ -86,7 +88,9 @@ TIE_THEOREMS = {
     'ParseIndex': ['Jp.Tie.parse_index_eq'], 'ResolveJson': ['Jp.Tie.resolve_json_eq', 'Jp.Tie.resolve_json_loop'],
     'ResolveMutJson': ['Jp.Tie.resolve_mut_json_eq'], 'ResolveToml': ['Jp.Tie.resolve_toml_eq'], 'ResolveMutToml': ['Jp.Tie.resolve_mut_toml_eq'],
 }
+for _i in CMP: TIE_THEOREMS[_i] = [f'Jp.Tie.cmp_{_i}_eq']
 TRANSPORT_THEOREMS = {
+    'TransportCmp': ['gen_eq_impls_are_text_eq', 'gen_ord_impls_are_lexCmp', 'gen_eq_iff_ord_eq'],
     'TransportValidate': ['gen_validate_ok_iff', 'gen_validate_no_panic', 'gen_no_leading_slash_iff'],
     'TransportToken': ['gen_from_encoded_ok_iff', 'gen_from_encoded_verbatim', 'gen_from_encoded_err_truthful',
                        'gen_from_encoded_no_panic', 'gen_new_encoded', 'gen_decoded_new', 'gen_decoded_eq_dec',
